@@ -472,10 +472,13 @@ func permutations(xs []uint64) [][]uint64 {
 	return out
 }
 
-func runClusterSearch(c *Ctx, r *Rng) {
+func runClusterSearch(c *Ctx, r *Rng, shape [3]int) {
 	N := 1 + r.Intn(4)
 	P := 1 + r.Intn(6)
 	R := 1 + r.Intn(3)
+	if shape[0] > 0 { // corpus shapes: one node hosting several partitions; two nodes, unreplicated
+		N, P, R = shape[0], shape[1], shape[2]
+	}
 	if R > N {
 		R = N
 	}
@@ -490,6 +493,9 @@ func runClusterSearch(c *Ctx, r *Rng) {
 	}
 	// populate every replica of every partition directly (no raft): id -> vector; some ties in score
 	nItems := r.Intn(40)
+	if shape[0] > 0 {
+		nItems = 12 + r.Intn(20)
+	}
 	vecs := map[int]amath.Vector{}
 	for i := 0; i < nItems; i++ {
 		v := amath.Vector{float32(r.Intn(12)), float32(r.Intn(12))}
@@ -634,6 +640,9 @@ func runClusterSearch(c *Ctx, r *Rng) {
 		ks := []int{0, 1, 3, 10, 100}
 		k := ks[r.Intn(len(ks))]
 		trial(entry, q, k, nil, nil, "plain")
+		// k at and above the number of stored items: nothing is cut off, the order is all that is left
+		trial(entry, q, nItems, nil, nil, "plain")
+		trial(entry, q, nItems+7, nil, nil, "plain")
 		// completion orders of the per-node workers
 		orders := permutations(cl.ids)
 		if len(orders) > 6 && !c.Thorough() {
@@ -826,7 +835,13 @@ func runCluster(c *Ctx) {
 	}
 	if what == "" || what == "search" {
 		for i, n := 0, c.ArgInt("searches", c.Pick(6, 60)); i < n; i++ {
-			runClusterSearch(c, rng.Fork())
+			shape := [3]int{}
+			if i == 0 {
+				shape = [3]int{1, 3, 1}
+			} else if i == 1 {
+				shape = [3]int{2, 4, 1}
+			}
+			runClusterSearch(c, rng.Fork(), shape)
 		}
 	}
 }
